@@ -499,8 +499,30 @@ def run_method_scenarios(c, mod, clauses, stop_after=4):
         env0 = native_env(mod)
         env0.update(ghost_env(6))
         env0.update(method_ghosts())
+
+        def _opq(name):
+            return c.opaque[name][0](mod)
+
+        def opaque_ok(name, *a):
+            try:
+                _opq(name)(*a)
+                return True
+            except Exception:  # noqa: BLE001
+                return False
+        env0["opaque_res"] = lambda name, *a: _opq(name)(*a)
+        env0["opaque_ok"] = opaque_ok
+        env0.update(c.consts)
         env0.update(extra_env)
         env0.update(args)
+        # scenarios outside the precondition say nothing about the contract
+        try:
+            if not all(bool(eval(compile(ast.fix_missing_locations(_Lazy().visit(ast.parse(rq.strip(), mode="eval"))),  # noqa: S307
+                                         "<requires>", "eval"), env0)) for rq in c.requires):
+                n -= 1
+                continue
+        except Exception:  # noqa: BLE001
+            n -= 1
+            continue
         coll = _OldCollector()
         trees = {}
         for name, expr in clauses.items():
